@@ -2331,17 +2331,38 @@ def toggle_labels(items, rng, level_name):
 
 def check_C14(ctx):
     import subprocess
-    nplans = ctx.scale(100, 1000)
+    nplans = ctx.scale(160, 1000)
     plans = []
     for _ in range(nplans):
-        pl = gen.gen_plan(ctx.rng, max_leaves=ctx.rng.choice([4, 8, 10]))
+        pl = gen.gen_plan(ctx.rng, max_leaves=ctx.rng.choice([4, 8, 10]), dup_heavy='narrow' if ctx.rng.random() < 0.3 else False)
         if pl.hists:
             plans.append(pl)
     hs_cases = []
+    # corpus first: pairs of spellings of one input on which seeded changes made the loaded analyses differ
+    corpus_file = os.path.join(core.VERIF, 'corpus', 'c14_spelling_pairs.json')
+    if FORCED is None and os.path.exists(corpus_file):
+        for pair in json.load(open(corpus_file)):
+            ca, cb = core.case_unjson(pair['case']), core.case_unjson(pair['other'])
+            La, Lb = core.load_cases([ca, cb])
+            ctx.record_case(ca)
+            ctx.counts['corpus_pairs'] += 1
+            if La.impl[0] != 'ok' or Lb.impl[0] != 'ok':
+                ctx.violation('a spelling of a consistent input is rejected: %s' % (La.impl if La.impl[0] != 'ok' else Lb.impl)[1],
+                              {'case': case_json(ca if La.impl[0] != 'ok' else cb)})
+                continue
+            df = sig_diff(signature(La.ham, with_profile=False, rng=ctx.rng.__class__(1)),
+                          signature(Lb.ham, with_profile=False, rng=ctx.rng.__class__(1)))
+            if df:
+                ctx.violation('two spellings of one history load differently (%s)' % df,
+                              {'case': case_json(ca), 'other': case_json(cb), 'differs': df})
+            for L_ in (La, Lb):
+                diffs = compare_parser(L_)
+                if diffs and diffs != ['unmodelled']:
+                    report_parser_layer(ctx, L_, diffs, 'props/C14.v: c14_spelling_independent')
     for pl in plans:
         gids = ['fam%d' % k for k in range(len(pl.hists))]
         variants = []
-        for v in range(ctx.scale(5, 10)):
+        for v in range(ctx.scale(8, 10)):
             c = gen.spell_plan(ctx.rng, pl, explicit=(v == 0), group_ids=gids, tag='rewrite', p_annot=0.0)
             if v >= 2 and ctx.rng.random() < 0.5:
                 c = gen.Case(c.tree, c.species, relabel(c.groups, lambda s_: 'r' + s_), c.use_internal,
